@@ -187,12 +187,18 @@ class MuxSocketTransportSink(ClientMessageSink):
       self._greenlets.append(self._SpawnNamedGreenlet('Send Loop', self._SendLoop))
 
       self._CheckInitialConnection()
+      if not self.isActive:
+        # A fault (or Close) during the handshake already shut the transport
+        # down, a late handshake reply must not bring it back to Open.
+        raise ClientError('Transport shut down while opening.')
       self._log.debug('Open successful')
       self._state = ChannelState.Open
       self._varz.active(1)
     except Exception as e:
       self._log.error('Exception opening socket')
-      self._open_result.set_exception(e)
+      if self._open_result:
+        # _Shutdown resets the open result.
+        self._open_result.set_exception(e)
       self._Shutdown('Open failed')
       raise
 
